@@ -221,6 +221,33 @@ class Oracle:
         if norm_tree(want) != norm_tree(after):
             self.fail("refresh-not-defaults", "refresh gives %r, the accumulated defaults merge to %r" % (after, sort_tree(want)))
 
+    def check_with_keys_restored(self, o, before, after):
+        """round 3 (C19_with_block_restores_key): a key written by the block's own arguments reads
+        after the block what it read before it (absent stays absent), when the body only wrote other
+        keys and __exit__ did not raise"""
+        if not self.in_domain:
+            return
+        body_paths = []
+        for b in o[3]:
+            if b[0] == "raise":
+                continue
+            if b[0] == "refresh":
+                return
+            if b[0] == "set":
+                body_paths += [npath(p) for _, p, _ in set_item_paths(b)]
+            elif b[0] == "upd":
+                body_paths += [npath(p) for p, _ in leaf_paths(b[1]) if p]
+        for key, p, v in set_item_paths(o):
+            if any(comparable(npath(p), q) for q in body_paths):
+                continue
+            had, x = ref_get(before, p)
+            has, y = ref_get(after, p)
+            if had != has or (had and x != y):
+                self.fail("context-manager-key-not-restored",
+                          "with set(%r = %r) and a body writing other keys %r: %s was %s before the block, %s after it"
+                          % (key, v, o[3], key, repr(x) if had else "absent", repr(y) if has else "absent"))
+                return
+
     # -- stepping ------------------------------------------------------------------------
     def sop(self, o, where):
         before = self.im.snapshot()
@@ -272,6 +299,7 @@ class Oracle:
                 self.fail("context-manager-exit-raises", "__exit__ raised %s: %s" % (type(e).__name__, e))
             return "exit-raised"
         after = self.im.snapshot()
+        self.check_with_keys_restored(o, before, after)
         if not [b for b in o[3] if b[0] != "raise"] and after != before:
             self.fail("context-manager-no-restore",
                       "after `with config.set(%s): pass` the store is %r, before it was %r"
